@@ -24,6 +24,10 @@ from .net import SimReactor
 from .seams import Seams, REPO
 
 VERIF = os.path.dirname(os.path.dirname(os.path.abspath(__file__)))
+def REPLAYS():
+    return os.environ.get('VERIF_REPLAY_DIR') or os.path.join(VERIF, 'replays')
+
+
 RUN_WALL_LIMIT = 20          # seconds; a run of a few ms that takes this long is a hang
 
 
@@ -150,6 +154,13 @@ def batch(prop, tier, base_seed, start, count, deadline, presets=None):
     """Run `count` runs (or the given presets) and aggregate."""
     faulthandler.enable()
     module = _import_check(prop)
+    lim = getattr(module, 'RLIMIT_AS', None)
+    if lim:
+        import resource
+        try:
+            resource.setrlimit(resource.RLIMIT_AS, (lim, lim))
+        except (ValueError, OSError):
+            pass
     known = load_known()
     agg = {
         'runs': 0, 'faults': Counter(), 'probes': Counter(), 'scheds': set(),
@@ -316,7 +327,7 @@ def write_replay(module, tier, viol, decisions, base_seed):
     if r2['digest'] != r['digest']:
         raise HarnessError('nondeterministic replay for %s: %s vs %s' %
                            (viol['clause'], r['digest'], r2['digest']))
-    os.makedirs(os.path.join(VERIF, 'replays'), exist_ok=True)
+    os.makedirs(REPLAYS(), exist_ok=True)
     tag = hashlib.sha1((v[0] + '|' + v[1]).encode()).hexdigest()[:8]
     path = os.path.join(VERIF, 'replays', '%s-%d-%s.json' % (module.PROPERTY, base_seed, tag))
     doc = {
@@ -386,7 +397,7 @@ def try_history(prop, tier, base_seed, viol):
     again = history_in_subprocess(prop, tier, base_seed, best)
     if not again or again.get('digest') != res.get('digest'):
         return None
-    os.makedirs(os.path.join(VERIF, 'replays'), exist_ok=True)
+    os.makedirs(REPLAYS(), exist_ok=True)
     tag = hashlib.sha1((target[0] + '|' + target[1]).encode()).hexdigest()[:8]
     path = os.path.join(VERIF, 'replays', '%s-%d-%s.json' % (prop, base_seed, tag))
     doc = {'property': prop, 'kind': 'history', 'clause': target[0], 'key': target[1],
@@ -563,8 +574,9 @@ def write_evidence(module, tier, base_seed, total, nviol):
         'wall_s': round(wall, 2),
         'violations': nviol,
     }
-    os.makedirs(os.path.join(VERIF, 'evidence'), exist_ok=True)
-    path = os.path.join(VERIF, 'evidence', prop + '.json')
+    evdir = os.environ.get('VERIF_EVIDENCE_DIR') or os.path.join(VERIF, 'evidence')
+    os.makedirs(evdir, exist_ok=True)
+    path = os.path.join(evdir, prop + '.json')
     tmp = path + '.tmp'
     with open(tmp, 'w') as f:
         json.dump(doc, f, indent=1, default=repr)
